@@ -51,9 +51,16 @@ def _build(cfg, old):
         c = VectorContainer(old, strict=cfg['obj_strict'])
         for v in ('F', 'I', 'B', 'S'):
             c.add_variable(v, [MARK[v](j) for j in range(len(old))], dtype=DTYPE[v])
+        names = ['F', 'I', 'B', 'S']
+        if cfg.get('odd_names'):
+            # legal variable names that ordinary attribute lookup resolves to something else: a method, a property, the
+            # storage slot of another variable
+            for v, src_v in (('size', 'F'), ('copy', 'I'), ('values', 'B'), ('_F', 'S'), ('eval', 'F')):
+                c.add_variable(v, [MARK[src_v](j + 3) for j in range(len(old))], dtype=DTYPE[src_v])
+                names.append(v)
         if not cfg['obj_strict']:
             c.note = 'attribute'
-        return c, ['F', 'I', 'B', 'S']
+        return c, names
     M = _model_class()
     m = M(old, strict=cfg['obj_strict'])
     for v in ('Y', 'X'):
@@ -102,6 +109,11 @@ def scenario(cfg, src) -> List[str]:
         new = [src.lab(f'new_{j}') for j in range(n_new)]
     else:  # concrete string labels: the solver has no dimension here, equality patterns are enumerated by the caller
         old, new = list(cfg['old_labels']), list(cfg['new_labels'])
+    new_span: Any = list(new)
+    if cfg['span'] == 'nd':        # the new span handed over as a NumPy array (the result's span must BE that kind of span)
+        new_span = np.array(new)
+    elif cfg['span'] == 'range':
+        new_span = range(new[0], new[-1] + 1) if new else range(0)
     if cfg.get('prior') is not None:
         # HISTORY: an earlier reindex (of another object) with fill values that compare EQUAL to this call's but are of
         # another type (1 / True / 1.0, 0.0 / -0.0): nothing of it may leak into this call
@@ -120,7 +132,7 @@ def scenario(cfg, src) -> List[str]:
     try:
         with warnings.catch_warnings():
             warnings.simplefilter('ignore')
-            res = obj.reindex(list(new), **kw)
+            res = obj.reindex(new_span, **kw)
         out = ('ret', res)
     except Exception as e:  # noqa: BLE001
         out = ('exc', type(e).__name__)
@@ -144,6 +156,8 @@ def scenario(cfg, src) -> List[str]:
     rs = list(res.span)
     if len(rs) != n_new or any(a is not b and not bool(a == b) for a, b in zip(rs, new)):
         bad.append('span of the result is not the new span')
+    if cfg['span'] in ('nd', 'range') and type(res.span) is not type(new_span):
+        bad.append(f'span of the result is a {type(res.span).__name__}, the new span given is a {type(new_span).__name__}')
     if cfg['kind'] == 'model':
         if (res.lags, res.leads) != (3, 2) or res.names != obj.names or res.strict != obj.strict:
             bad.append(f'lag/lead settings or names not carried over: {(res.lags, res.leads)}')
@@ -261,6 +275,14 @@ def configs(tier: str):
     for o, n in pats:
         for kind in ('container', 'model'):
             out.append(cfg12(kind=kind, span='str', old_labels=o, new_labels=n, n_old=len(o), n_new=len(n)))
+    # new span given as a NumPy array / a range (the result keeps that kind of span); odd but legal variable names
+    ipats = [([2000, 2001, 2002], [2001, 2002, 2003]), ([2000, 2001], [2005, 2006]), ([2001], [2000, 2001, 2002]), ([], [2000, 2001]), ([2000, 2001, 2002], [2001])]
+    for o, n in ipats:
+        for kind in ('container', 'model'):
+            for sp in ('nd', 'range'):
+                out.append(cfg12(kind=kind, span=sp, old_labels=o, new_labels=n, n_old=len(o), n_new=len(n)))
+        out.append(cfg12(kind='container', span='str', old_labels=o, new_labels=n, n_old=len(o), n_new=len(n), odd_names=True))
+        out.append(cfg12(kind='container', span='str', old_labels=o, new_labels=n, n_old=len(o), n_new=len(n), odd_names=True, fill_value=7))
     return out
 
 
